@@ -190,7 +190,7 @@ func (e *Engine) generate() {
 					held = append(held, k)
 				}
 				sort.Strings(held)
-				e.structural(e.FnKey+"/lock-released", "lockinv", fn.Pos(), "no lock taken by the function is still held when it returns", len(held) == 0, "returns while still holding "+strings.Join(held, ", "))
+				e.structural(e.FnKey+"/lock-released", "lock-released", fn.Pos(), "no lock taken by the function is still held when it returns", len(held) == 0, "returns while still holding "+strings.Join(held, ", "))
 			}
 		}
 	}
